@@ -43,10 +43,10 @@ def signature(p):
     elif star == "*" and (kwo or kwd):
         parts.append("*")
     if star != "none":
-        if kwo:
-            parts.append("k0")
-        if kwd:
-            parts.append("k1='kd'")
+        kwparts = (["k0"] if kwo else []) + (["k1='kd'"] if kwd else [])
+        if kwo and kwd and p.choose(2, "keyword_only_with_default_first"):
+            kwparts.reverse()          # def f(*a, k1='kd', k0): legal, the default belongs to k1
+        parts += kwparts
     if kws:
         parts.append("**extra")
     return ", ".join(parts)
